@@ -125,6 +125,19 @@ class World (object):
     return rows
 
   def apply (self, op):
+    try:
+      return self._apply(op)
+    except Exception as e:
+      # an exception escaping the switch / flow table while it handles an operation
+      import traceback
+      site = "?"
+      for fr in reversed(traceback.extract_tb(e.__traceback__)):
+        if "/pox/" in fr.filename: site = "%s:%s" % (fr.filename.split("/pox/")[-1], fr.name); break
+      if site == "?": raise
+      self.bad = [("%s:raises:%s:%s:%s" % (PID, op[0], site, type(e).__name__), "%r: %s: %s raised in %s" % (op, type(e).__name__, e, site))]
+      return ("raised",)
+
+  def _apply (self, op):
     self.bad = []
     st, ref, now = self.st, self.ref, self.clock.now
     k = op[0]
@@ -264,6 +277,9 @@ ROOTS = [
   (("add", "B", 1, "rem-idle"), ("add", "C", 1, "rem-idle"), ("add", "A", 2, "plain"), ("tick", 1.1)),
   # only permanent entries, and a sweep has already looked at them
   (("add", "A", 1, "plain"), ("add", "C", 2, "plain"), ("sweep",)),
+  # entries with the same kind of timeout installed at different times: they run out in an order that differs from
+  # their order in the table (newest first among equals; exact matches first)
+  (("add", "A", 1, "rem-hard"), ("add", "B", 2, "rem-idle"), ("tick", 1.1), ("add", "C", 1, "rem-hard"), ("add", "D", 1, "rem-idle")),
 ]
 
 def make_expand (root):
@@ -281,7 +297,7 @@ def run (cfg):
   boot()
   rep = Report(PID, "model_checking")
   depth = cfg.pick(3, 4)
-  rep.rule = ("breadth-first search, every reachable table state expanded once, over histories of <=%d operations (from the empty table; one less from three populated tables) from %d: "
+  rep.rule = ("breadth-first search, every reachable table state expanded once, over histories of <=%d operations (from the empty table; one less from four populated tables) from %d: "
               "ADD x matches {in_port=1; in_port=1,dl_type=IP; dl_type=IP; exact} x priority {1,2} x {plain, CHECK_OVERLAP, "
               "SEND_FLOW_REM+idle 2, SEND_FLOW_REM+hard 3}, ADD+EMERG, MODIFY, MODIFY_STRICT, DELETE, DELETE_STRICT, DELETE with "
               "out_port filter, a frame hitting all four matches, a frame hitting only dl_type=IP, clock +1.1 / +2.1, expiry sweep; "
